@@ -243,6 +243,7 @@ def rand_scenario(
         "abort_origin": rng.choice(["direct", "direct", "nested"]),  # an AbortRetryError raised by the operation itself, or by a policy nested in it
         "exc_chain": rng.choice([None] * 8 + ["open_context", "timeout_cause", "open_cause", "abort_context", "scripted_cause", "scripted_cause"]),
         "rely_on_defaults": rng.random() < 0.08,
+        "state_reader": rng.random() < 0.35,  # the breaker's public `state` is read between calls
         "ctx_block_shared": rng.random() < 0.4,  # context-manager entries: one block around all calls of the scenario, or one per call
     })
 
